@@ -851,6 +851,28 @@ int main(int argc, char** argv)
                 }
             }
         }
+    // consecutive time-outs on one pooled connection object (round 6; since the repair of F36 a timed-out connection is closed and
+    // the next request connects again - the connection object, its timers and its parser are the same ones): a second and a
+    // third time-out must fire just as the first, and an answered request after them must get its answer
+    for (int threads : { 1, 2 })
+        for (int k = 2; k <= 3; ++k)
+            for (int tail = 0; tail < 2; ++tail)
+            {
+                if (!thorough && threads == 2 && k == 3)
+                    continue;
+                Scenario s { threads, 1, k + tail, {}, {}, maxD };
+                for (int i = 0; i < k; ++i)
+                {
+                    s.beh.push_back(i % 2 ? B_DROP : B_NEVER);
+                    s.timeoutMs.push_back(1000);
+                }
+                if (tail)
+                {
+                    s.beh.push_back(B_PIECES);
+                    s.timeoutMs.push_back(0);
+                }
+                gScenarios.push_back(s);
+            }
     // two hosts through one client (limit 1 each): one host's connection is taken by a request that is never answered and
     // has a request waiting behind it; the other host's requests must go on being handed over whenever its connection is
     // free. The client keeps one queue per host, created when a request first has to wait, and scans them in table order:
